@@ -119,6 +119,15 @@ func cmdCrashChild(args []string) error {
 		return ki
 	}
 	x := &Ctx{tr: tr, crc: newCrcTable(), exp: newExpTable(), known: known, maxCas: func() uint64 { return maxCas }}
+	vdef := map[string]string{}
+	x.swapDDoc = func(coll string) error {
+		nv := "B"
+		if vdef[coll] == "B" {
+			nv = "A"
+		}
+		vdef[coll] = nv
+		return colls[coll].PutDDoc(context.Background(), "vd", viewDDocVariant(nv))
+	}
 	meta := bucketMeta(b, colls)
 	emit(map[string]any{"k": "meta", "meta": meta, "expbase": x.exp.base})
 	startRefs := map[string]*CasRef{}
